@@ -60,10 +60,21 @@ CaseOK(ln) ==
     /\ Chk("balance reported in the error (sign)", ln.low => ln.sign = e.sign)
     /\ Chk("disconnect instructions sent to the host", ln.disconnects = e.disconnects)
 
+\* C05 / C13 at the binary: the pool on its persistent store honours a request once - before the process is killed and
+\* after it was started again on the same data directory (node- and wallet-signed requests alike)
+ReplayOK(ln) ==
+    /\ Chk("the pool process died", ln.alive)
+    /\ Chk("a fresh correctly signed request was not honoured", ln.phase = "first" => ln.accepted)
+    /\ Chk("a captured request was honoured a second time (or refused for another reason than its nonce)",
+           ln.phase # "first" => ~ln.accepted /\ ln.noncerefused)
+
 Init == l = 1
-Next == l <= Len(Trace) /\ CaseOK(Trace[l]) /\ l' = l + 1
+Next == /\ l <= Len(Trace)
+        /\ IF Trace[l].ev = "binreplay" THEN ReplayOK(Trace[l]) ELSE CaseOK(Trace[l])
+        /\ l' = l + 1
 Spec == Init /\ [][Next]_l
-Probed == {Trace[i].c : i \in DOMAIN Trace}
-Complete == Probed = Cases
+Table == {i \in DOMAIN Trace : Trace[i].ev # "binreplay"}
+Probed == {Trace[i].c : i \in Table}
+Complete == Table = {} \/ Probed = Cases
 Accepted == TLCGet("stats").diameter - 1 = Len(Trace) /\ Complete
 =============================================================================
